@@ -24,7 +24,9 @@ import (
 
 func init() {
 	c19Extra = c19GramRun
-	c19ExtraGen = c19GramGen
+	c19ExtraGen = func(r *Rand, tier string) []string {
+		return append(c19GramGen(r, tier), c19F64Gen(r, tier)...) // c19f64.go: the IEEE instance
+	}
 }
 
 func c19Pair(f1, f2 string, ctx *c19Ctx, tag string) string {
